@@ -198,6 +198,21 @@ fn post_bloom(f: BloomFilter) {
     let img = g.serialize();
     let _ = BloomFilter::deserialize(&img).map(|d| d.bits_used());
     let _ = f.serialize();
+    // each operation also directly on the restored filter (before anything recounts the bits)
+    for first in 0..4 {
+        let mut h = f.clone();
+        match first {
+            0 => h.invert(),
+            1 => {
+                h.insert(7u64);
+                h.insert(8u64);
+                h.invert();
+            }
+            2 => h.intersect(&f),
+            _ => h.union(&f),
+        }
+        let _ = (h.bits_used(), h.load_factor(), h.estimated_fpp(), h.is_empty(), h.serialize());
+    }
     let mut h = f.clone();
     h.reset();
 }
